@@ -135,7 +135,33 @@ def q_draw(qc):
     return buf.getvalue()
 
 
+class PurityViolation(Exception):
+    pass
+
+
+def q_schedule_instructions(qc):
+    """one Scheduler object used twice on one list of Instruction objects: the instructions and the scheduler keep
+    their attributes, the second answer equals the first and equals a fresh scheduler's on fresh instructions"""
+    from qutip_qip.compiler import Scheduler, Instruction
+    from qutip_qip.operations import Gate
+    mk = lambda: [Instruction(g, duration=1 + (i % 3)) for i, g in enumerate(qc.gates) if isinstance(g, Gate)]
+    insts = mk()
+    sched = Scheduler("ASAP")
+    b_i, b_s = snap(insts), snap(vars(sched))
+    r1 = sched.schedule(insts)
+    if snap(insts) != b_i:
+        raise PurityViolation("Scheduler.schedule changed the Instruction objects passed in")
+    if snap(vars(sched)) != b_s:
+        raise PurityViolation("Scheduler.schedule changed the Scheduler object")
+    r2 = sched.schedule(insts)
+    r3 = Scheduler("ASAP").schedule(mk())
+    if not (close(snap(r1), snap(r2)) and close(snap(r1), snap(r3))):
+        raise PurityViolation("a used Scheduler answers differently from the first call / a fresh one")
+    return r1
+
+
 QUERIES = {
+    "schedule_instructions": q_schedule_instructions,
     "compute_unitary": q_compute_unitary, "propagators": q_propagators, "propagators_compact": q_propagators_compact,
     "resolve_gates": q_resolve, "resolve_iswap": q_resolve_iswap, "adjacent_gates": q_adjacent,
     "to_chain_structure": q_chain, "reverse_circuit": q_reverse, "schedule_asap": q_schedule_asap,
@@ -159,6 +185,8 @@ def run_query(name, qc):
             if any(id(g) in ids for g in r.gates):
                 SHARING[name] = SHARING.get(name, 0) + 1
         return ("ok", snap(r))
+    except PurityViolation as e:
+        return ("impure", str(e))
     except Exception as e:
         return ("exc", type(e).__name__)
 
@@ -282,6 +310,8 @@ def oracle_qpure(w, queries=None):
             return True, f"query {name} changed gate {j} of the circuit passed in: {view[j]} -> {view2[j]}"
         if before != after:
             return True, f"query {name} changed the circuit passed in"
+        if first[0] == "impure":
+            return True, f"query {name}: {first[1]}"
         if first[0] == "na":
             continue
         again = run_query(name, qc)
@@ -294,6 +324,211 @@ def oracle_qpure(w, queries=None):
 
 W_DRAW = {"kind": "qpure", "n": 2, "ncb": 0, "queries": ["draw_text"],
           "gates": [{"name": "ISWAP", "targets": [1, 0], "controls": None, "arg": None, "cc": None, "ccv": None}]}
+
+
+# ------------------------------------------------------------------------------------------
+# results of transformations: what they share with the argument (model: Model/SimObj.lean)
+
+def t_reverse(qc):
+    return qc.reverse_circuit()
+
+
+def t_chain_lin(qc):
+    from qutip_qip.transpiler.chain import to_chain_structure
+    return to_chain_structure(qc, "linear")
+
+
+def t_chain_circ(qc):
+    from qutip_qip.transpiler.chain import to_chain_structure
+    return to_chain_structure(qc, "circular")
+
+
+def t_resolve(qc):
+    return qc.resolve_gates()
+
+
+def t_resolve_iswap(qc):
+    return qc.resolve_gates(["ISWAP", "RX", "RZ"])
+
+
+def t_adjacent(qc):
+    return qc.adjacent_gates()
+
+
+TRANSFORMS = {"reverse_circuit": t_reverse, "to_chain_structure_linear": t_chain_lin,
+              "to_chain_structure_circular": t_chain_circ, "resolve_gates": t_resolve,
+              "resolve_gates_iswap": t_resolve_iswap, "adjacent_gates": t_adjacent}
+SWAP_LIKE = ["SWAP", "ISWAP", "SQRTISWAP", "SQRTSWAP", "BERKELEY", "SWAPalpha"]
+
+
+def sharing_signature(arg, res):
+    """per gate of the result: `o<i>` it IS gate i of the argument, `t<i>` another object holding the targets (or
+    controls) list of gate i, `n` nothing shared"""
+    gid = {id(g): i for i, g in enumerate(arg.gates)}
+    lid = {}
+    for i, g in enumerate(arg.gates):
+        for l in (getattr(g, "targets", None), getattr(g, "controls", None)):
+            if isinstance(l, list):
+                lid[id(l)] = i
+    out = []
+    for g in res.gates:
+        if id(g) in gid:
+            out.append("o%d" % gid[id(g)])
+            continue
+        hit = [lid[id(l)] for l in (getattr(g, "targets", None), getattr(g, "controls", None))
+               if isinstance(l, list) and id(l) in lid]
+        out.append("t%d" % hit[0] if hit else "n")
+    return out
+
+
+def chain_plan(w, setup):
+    """what `to_chain_structure` emits for each gate of the argument, as far as sharing goes: gates that are neither
+    CNOT/CSIGN nor swap-like are appended as they are (`k<i>`); a CNOT/CSIGN spanning the whole circular chain is
+    re-emitted from its own targets/controls lists (`l<i>`); everything else is built from new lists"""
+    n = w["n"]
+    plan = []
+    for i, g in enumerate(w["gates"]):
+        if "M" in g:
+            plan.append("k%d" % i)
+        elif g["name"] in ("CNOT", "CSIGN"):
+            a, b = g["targets"][0], g["controls"][0]
+            start, end = min(a, b), max(a, b)
+            if not (setup == "linear" or (end - start) <= n // 2) and (end - start) == n - 1:
+                plan.append("l%d" % i)
+        elif g["name"] not in SWAP_LIKE:
+            plan.append("k%d" % i)
+    return plan
+
+
+def mutate_result(res):
+    """change, in place, everything a user can reach through the result's gates"""
+    for g in res.gates:
+        for attr in ("targets", "controls", "classical_controls"):
+            l = getattr(g, attr, None)
+            if isinstance(l, list):
+                l.append(99)
+                l[0] = 98
+        if hasattr(g, "arg_value"):
+            g.arg_value = -123.0
+        g.name = "MUTATED"
+
+
+def oracle_share(w):
+    """changing the result of a transformation in place never changes the circuit it was computed from"""
+    try:
+        qc = build_lib_circuit(w)
+    except Exception as e:
+        return False, "not constructible: " + type(e).__name__
+    for name in (w.get("transforms") or sorted(TRANSFORMS)):
+        before, view = snap(qc), gates_view(qc)
+        try:
+            res = TRANSFORMS[name](qc)
+        except Exception:
+            continue
+        sig = sharing_signature(qc, res)
+        mutate_result(res)
+        if gates_view(qc) != view or snap(qc) != before:
+            shared = sorted({x for x in sig if x != "n"})
+            j = next((i for i, (a, b) in enumerate(zip(view, gates_view(qc))) if a != b), None)
+            return True, (f"{name}: changing the returned circuit's gates in place changed gate {j} of the argument "
+                          f"(the result shares {shared} with it)")
+    return False, "results of the transformations share nothing mutable with the argument"
+
+
+W_SHARE_REV = {"kind": "share", "n": 2, "ncb": 0, "transforms": ["reverse_circuit"],
+               "gates": [{"name": "CNOT", "targets": [1], "controls": [0], "arg": None, "cc": None, "ccv": None}]}
+W_SHARE_CHAIN = {"kind": "share", "n": 3, "ncb": 0, "transforms": ["to_chain_structure_circular"],
+                 "gates": [{"name": "RX", "targets": [1], "controls": None, "arg": 0.5, "cc": None, "ccv": None},
+                           {"name": "CNOT", "targets": [2], "controls": [0], "arg": None, "cc": None, "ccv": None}]}
+
+
+# ------------------------------------------------------------------------------------------
+# noise objects (model: Model/SimObj.lean relaxUse / decoUse)
+
+def enc_tval(v):
+    if v is None:
+        return "N"
+    if isinstance(v, list):
+        return "l" + (",".join("N" if x is None else str(int(x)) for x in v) if v else "e")
+    return "s%d" % int(v)
+
+
+def read_tval(v):
+    if v is None:
+        return None
+    if isinstance(v, (list, tuple)):
+        return [None if x is None else int(x) for x in v]
+    return int(v)
+
+
+def run_relax(t1, t2, uses):
+    """direct uses of one RelaxationNoise object: per use the verdict and the object's attributes afterwards"""
+    from qutip_qip.noise import RelaxationNoise
+    import copy as _copy
+    n = RelaxationNoise(t1=_copy.deepcopy(t1), t2=_copy.deepcopy(t2))
+    out = []
+    for N in uses:
+        try:
+            n.get_noisy_pulses(dims=[2] * N, pulses=[])
+            verdict = "ok"
+        except ValueError:
+            verdict = "err value"
+        except Exception as e:
+            verdict = "err other:" + type(e).__name__
+        out.append((verdict, read_tval(n.t1), read_tval(n.t2)))
+    return out
+
+
+def rand_relax(rng):
+    def tv(N):
+        r = rng.random()
+        if r < 0.2:
+            return None
+        if r < 0.6:
+            return rng.choice([1, 2, 4, 0, -1])
+        L = rng.choice([N, N, rng.randint(1, 3)])
+        return [rng.choice([1, 2, 4, None]) for _ in range(L)]
+    uses = [rng.randint(1, 3) for _ in range(rng.randint(1, 4))]
+    t1 = tv(uses[0])
+    t2 = tv(uses[0])
+    # keep 2*t1 >= t2 so that the later physical check does not interfere: make t2 = t1 entrywise when both given
+    if isinstance(t1, list) and isinstance(t2, list) and len(t1) == len(t2):
+        t2 = [a if b is not None else None for a, b in zip(t1, t2)]
+    elif not isinstance(t1, list) and not isinstance(t2, list) and t1 is not None and t2 is not None:
+        t2 = t1
+    elif t1 is not None and t2 is not None:
+        t2 = None
+    return {"kind": "noise", "t1": t1, "t2": t2, "uses": uses}
+
+
+def oracle_noise(w):
+    """a noise object that has been used answers like one freshly constructed with the same arguments, and keeps the
+    attributes it was given"""
+    rec = run_relax(w["t1"], w["t2"], w["uses"])
+    for j, (N, (verdict, a1, a2)) in enumerate(zip(w["uses"], rec)):
+        fresh = run_relax(w["t1"], w["t2"], [N])[0][0]
+        if verdict != fresh:
+            return True, (f"RelaxationNoise(t1={w['t1']}, t2={w['t2']}) after uses on {w['uses'][:j]} qubits: use on "
+                          f"{N} qubits -> {verdict}, a fresh object -> {fresh}")
+        if (a1, a2) != (read_tval(w["t1"]), read_tval(w["t2"])):
+            return True, (f"RelaxationNoise(t1={w['t1']}, t2={w['t2']}): after a use on {N} qubits the object holds "
+                          f"t1={a1}, t2={a2}")
+    # through a processor: the caller's noise object is handed to process_noise
+    from qutip_qip.noise import RelaxationNoise
+    from qutip_qip.device import LinearSpinChain
+    pos = lambda v: v is None or (not isinstance(v, list) and v > 0)
+    if pos(w["t1"]) and pos(w["t2"]):
+        nz = RelaxationNoise(t1=w["t1"], t2=w["t2"])
+        p = LinearSpinChain(2)
+        p.add_noise(nz)
+        p.get_noisy_pulses(device_noise=True)
+        if (read_tval(nz.t1), read_tval(nz.t2)) != (read_tval(w["t1"]), read_tval(w["t2"])):
+            return True, (f"processor.get_noisy_pulses(device_noise=True) changed the caller's RelaxationNoise object: "
+                          f"t1={nz.t1}, t2={nz.t2}")
+    return False, "the used noise object equals a fresh one"
+
+
+W_NOISE = {"kind": "noise", "t1": 1, "t2": 1, "uses": [2, 3]}
 
 
 # ------------------------------------------------------------------------------------------
@@ -787,6 +1022,10 @@ def oracle(w):
         return oracle_qpure(w)
     if w["kind"] == "shape":
         return oracle_shape(w)
+    if w["kind"] == "share":
+        return oracle_share(w)
+    if w["kind"] == "noise":
+        return oracle_noise(w)
     return oracle_device(dev_of(w))
 
 
@@ -1025,6 +1264,94 @@ class C16(PropertyCheck):
                              "model: queries write nothing; implementation: " + d, w)
         res.notes.append(f"{nq} full-library circuits x {len(qnames)} queries: circuit and every gate object snapshotted "
                          "before/after each query (model: world unchanged)")
+        # 4. results of transformations: sharing signature against the object model (Model/SimObj.lean)
+        nsh = 600 if ctx.thorough else 60
+        shared_seen = {}
+        for it in range(nsh):
+            w = rand_lib_circuit(rng)
+            try:
+                qc = build_lib_circuit(w)
+            except Exception:
+                continue
+            k = len(w["gates"])
+            ctrl = ",".join("1" if ("M" not in g and g.get("controls")) else "0" for g in w["gates"])
+            for name, fn in sorted(TRANSFORMS.items()):
+                try:
+                    r = fn(qc)
+                except Exception:
+                    continue
+                sig = sharing_signature(qc, r)
+                if name == "reverse_circuit":
+                    line = f"share cfg={S.cfg_str(cfg)} kind=rev ctrl={ctrl} plan=N"
+                    exp_len = k
+                elif name.startswith("to_chain_structure"):
+                    plan = chain_plan(w, "linear" if name.endswith("linear") else "circular")
+                    line = f"share cfg={S.cfg_str(cfg)} kind=chain ctrl={ctrl} plan={','.join(plan) if plan else 'N'}"
+                    exp_len = None
+                else:
+                    line = f"share cfg={S.cfg_str(cfg)} kind=copy ctrl={ctrl} plan=N"
+                    exp_len = None
+                o = drv.run([line])[0]
+                msig = o[3:].split(",") if o.startswith("ok") and len(o) > 3 else []
+                inp = {"transform": name, "n": w["n"], "gates": w["gates"]}
+                res.case(inp, nontrivial=True, tags=["stream=sharing", "transform=" + name])
+                for x in sig:
+                    if x != "n":
+                        shared_seen[name] = shared_seen.get(name, 0) + 1
+                # the model lists what is shared (fresh gates are not enumerated by the plan): compare the shared part
+                m_shared = sorted(x for x in msig if x != "n")
+                i_shared = sorted(x for x in sig if x != "n")
+                bad = m_shared != i_shared or (exp_len is not None and len(sig) != exp_len) or \
+                    (name == "reverse_circuit" and msig != sig)
+                if bad:
+                    res.disagree(inp, msig, sig, f"{name}: what the result shares with its argument "
+                                 f"(model {m_shared}, implementation {i_shared})",
+                                 dict(w, kind="share", transforms=[name]))
+        res.notes.append(f"{nsh} full-library circuits x 6 transformations: per gate of the result, identity of the gate "
+                         "object and of its targets/controls lists against the argument's, compared with the object "
+                         "model; shared items seen: " + json.dumps(shared_seen, sort_keys=True))
+
+        # 5. noise objects: direct uses of one RelaxationNoise on systems of several sizes; DecoherenceNoise.coeff
+        nno = 1500 if ctx.thorough else 150
+        lines, wits = [], []
+        for it in range(nno):
+            w = rand_relax(rng)
+            wits.append(w)
+            lines.append(f"noise cfg={S.cfg_str(cfg)} t1={enc_tval(w['t1'])} t2={enc_tval(w['t2'])} "
+                         f"uses={','.join(map(str, w['uses']))}")
+        outs = drv.run(lines)
+        for w, o in zip(wits, outs):
+            rec = run_relax(w["t1"], w["t2"], w["uses"])
+            impl = " ; ".join(f"{v if v != 'ok' else 'ok'} @{enc_tval(a1)};{enc_tval(a2)}" for v, a1, a2 in rec)
+            model = " ; ".join((("ok" if ch.startswith("ok") else ch.split(" @")[0]) + " @" + ch.split(" @")[1])
+                               for ch in o.split(" ; "))
+            res.case({k: w[k] for k in ("t1", "t2", "uses")}, nontrivial=len(w["uses"]) > 1,
+                     tags=["stream=noise", "uses=%d" % len(w["uses"])])
+            if impl != model:
+                res.disagree({k: w[k] for k in ("t1", "t2", "uses")}, model, impl,
+                             "RelaxationNoise: verdict and attributes t1/t2 after each use", w)
+        import qutip
+        from qutip_qip.noise import DecoherenceNoise
+        for coeff, tln in ((None, 1), (None, 0), (2, 1), (2, 0)):
+            d = DecoherenceNoise(qutip.sigmaz(), targets=0, coeff=(None if coeff is None else np.array([coeff] * 3, dtype=float)),
+                                 tlist=(None if tln else np.array([0.0, 1.0, 2.0])))
+            seen = []
+            for _ in range(2):
+                try:
+                    d.get_noisy_pulses(dims=[2, 2], pulses=[])
+                except Exception as e:
+                    seen.append("exc:" + type(e).__name__)
+                    continue
+                seen.append("N" if d.coeff is None else ("1" if d.coeff is True else "arr"))
+            o = drv.run([f"deco cfg={S.cfg_str(cfg)} coeff={'N' if coeff is None else coeff} tln={tln} uses=2"])[0]
+            model = [("arr" if x.split(" @")[1] not in ("N", "1") else x.split(" @")[1]) for x in o.split(" ; ")]
+            res.case({"deco": [coeff, tln]}, nontrivial=True, tags=["stream=noise-deco"])
+            if not any(x.startswith("exc") for x in seen) and seen != model:
+                res.disagree({"deco": [coeff, tln]}, model, seen, "DecoherenceNoise.coeff after each use", None)
+
+        # 6. stored pulses under get_qobjevo padding: the C14 model's padCoeff / stepAt on the real arrays
+        res.notes.append("pulse padding: see pulses_snap (pulses compared as functions of time; theorem "
+                         "C16.pulse_padding_same_function on the C14 model)")
         res.notes.append("observation (not a violation: the aliasing clause is about results of run/run_statistics): "
                          "transformations whose returned circuit shares Gate objects with its argument, with counts: "
                          + json.dumps(SHARING, sort_keys=True))
@@ -1040,7 +1367,7 @@ class C16(PropertyCheck):
     def _sweep(self, ctx, budget_s, count):
         rng = ctx.rng
         t0 = time.time()
-        for w in (W_ALIAS, W_PHASE, W_GETTER, W_DRAW, W_SHAPE):
+        for w in (W_ALIAS, W_PHASE, W_GETTER, W_DRAW, W_SHAPE, W_SHARE_REV, W_SHARE_CHAIN, W_NOISE):
             f, d = oracle(w)
             if f:
                 yield w, d
@@ -1065,6 +1392,23 @@ class C16(PropertyCheck):
                 continue
             if r < 0.33:
                 w = rand_shape_witness(rng)
+                f, d = oracle(w)
+                if f:
+                    yield w, d
+                continue
+            if r < 0.45:
+                w = dict(rand_lib_circuit(rng), kind="share")
+                f, d = oracle(w)
+                if f:
+                    for t in sorted(TRANSFORMS):
+                        f1, d1 = oracle(dict(w, transforms=[t]))
+                        if f1:
+                            w, d = dict(w, transforms=[t]), d1
+                            break
+                    yield w, d
+                continue
+            if r < 0.5:
+                w = rand_relax(rng)
                 f, d = oracle(w)
                 if f:
                     yield w, d
